@@ -28,11 +28,13 @@ import numpy as np
 
 from mc.core import Abort, Outcome, bfs
 from mc.oracles import grpK_slicer as K
+from mc.oracles.grpK_sparse import digest
 
 PROPERTY = "C36"
 LEVEL = "model_checking"
 RULE = (
     "single: all ordered k-tuples (k<=3) of distinct domain and range indices below U, all "
+    "permutations of 4 indices, all domain sequences of length 2-3 below 4 with a repeated index, all "
     "constructor forms (both / domain only / range only; range_size and domain_size absent, "
     "minimal, minimal+1), views S, S.T, S.T.T, S.copy(), 11 operand kinds; terms: all "
     "expression trees over a leaf alphabet of slicers with <=3 leaves and pending left "
@@ -44,7 +46,8 @@ RULE = (
     "history) - operand kinds are counted as evaluations only"
 )
 ASSUMPTIONS = [
-    "index sets are injective (distinct domain indices, distinct range indices), non-empty",
+    "range indices are distinct; domain indices are distinct, or (untransposed slicers only) "
+    "repeat a row; index sets are non-empty",
     "operand has exactly domain_size rows; one row more is also tried when domain_size is "
     "not given (docstring example 1)",
     "left operands of pending operations are python floats/ints, scipy sparse matrices (@) "
@@ -58,10 +61,10 @@ ASSUMPTIONS = [
     "everything else exactly",
 ]
 BOUNDS = {
-    "quick": "single: U=4, k<=3; terms: 2 slicers: all 243 forms of maps [3]->[3] and 44 "
+    "quick": "single: U=4, k<=3, plus k=4 and repeated domain indices below 4; terms: 2 slicers: all 243 forms of maps [3]->[3] and 44 "
     "rectangular maps, 3 slicers: 12-letter alphabet (6-letter with pending operands), "
     "<=1 pending operand on products, <=2 on single slicers; pool: 3 pools, depth 2",
-    "thorough": "single: U=5, k<=3; terms: 3 slicers over all 81 maps [3]->[3]; "
+    "thorough": "single: U=5, k<=3, plus k=4 and repeated domain indices below 4; terms: 3 slicers over all 81 maps [3]->[3]; "
     "3 slicers with pending operands over the 12-letter alphabet; pool: 3 pools, depth 3",
 }
 MIN_CLASSES = 12
@@ -298,6 +301,14 @@ def cases(tier):
     for k in (1, 2, 3):
         for dom in ordered(U, k):
             out.append({"kind": "single", "U": U, "dom": list(dom)})
+    # four indices (the smallest size at which an unsorted set can span a contiguous block)
+    for dom in ordered(4, 4):
+        out.append({"kind": "single", "U": 4, "dom": list(dom)})
+    # repeated domain indices (a row selected twice): still a 0/1 matrix with one entry per row
+    for k in (2, 3):
+        for dom in itertools.product(range(4), repeat=k):
+            if len(set(dom)) < k:
+                out.append({"kind": "single", "U": 4, "dom": list(dom)})
     for fam, (nl, nw, wa, alpha, kinds) in FAMILIES[tier].items():
         n = len(ALPHABETS[alpha]())
         if nl == 1:
@@ -370,7 +381,9 @@ KF_KEYS = {"matmul": "C36-right-nested-chain", "elementwise": "C36-pending-overw
 
 
 def known_finding(case, viol):
-    return KF_KEYS.get(viol.get("overwrite"))
+    # The overwrite defects (violation field "overwrite") are fixed in /repo (db5ddbbe2);
+    # nothing is masked any more. KF_KEYS documents the keys used while they were open.
+    return None
 
 
 # ----------------------------------------------------------------------- E: single
@@ -387,7 +400,7 @@ def _map_class(dom, rng, rs, ds):
     else:
         c = "partial"
     mono = "mono" if list(rng) == sorted(rng) and list(dom) == sorted(dom) else "unsorted"
-    return c + "/" + mono
+    return c + "/" + mono + ("/repeated" if len(set(dom)) < len(dom) else "")
 
 
 def _operand_rows(view, dom_e, rng_e, rs_e, ds_e, domain_size_given):
@@ -403,6 +416,7 @@ def run_single(case, out):
     dom = case["dom"]
     k = len(dom)
     ident = list(range(k))
+    rep = len(set(dom)) < k
     targets = {}
 
     def target(kind, n):
@@ -427,7 +441,8 @@ def run_single(case, out):
                     assert d_e == dom and r_e == rng
                     mcls = _map_class(dom, rng, rs_e, ds_e)
                     onto = form == "dom_only" and rs_arg is None
-                    for view in ("S", "S.T", "S.T.T", "S.copy()"):
+                    # a repeated domain index has no transpose that is a map
+                    for view in (("S", "S.copy()") if rep else ("S", "S.T", "S.T.T", "S.copy()")):
                         try:
                             S = ArraySlicer(
                                 None if d_arg is None else np.array(d_arg),
@@ -456,9 +471,12 @@ def run_single(case, out):
                                     continue  # a scalar is broadcast to the domain size
                                 y, ym = target(kind, n)
                                 exp = K.apply_P(P, ym)
+                                before = digest(y)
                                 try:
                                     got = S @ y
                                     bad = K.differs(exp, got)
+                                    if bad is None and digest(y) != before:
+                                        bad = "the operand was modified"
                                 except Exception as e:
                                     bad = "raised " + repr(e)
                                     got = None
